@@ -39,10 +39,17 @@ Outcome(f, k) ==
   ELSE IF f \in {"cut_body_cl", "cut_body_chunked", "rst_body", "bad_chunk_size", "bad_gzip"} THEN [o |-> "closed_after_head", st |-> {200}]
   ELSE [o |-> "error_response", st |-> Statuses(f)]
 \* a CONNECT tunnel via the upstream proxy that is cut later is not an HTTP matter
-Cases == {c \in [f : Faults, k : Kinds] : Applies(c.f, c.k) /\ ~(c.k = "CONNECTviaProxy" /\ c.f \in {"cut_head", "rst_head", "bad_status_line", "bad_field", "trailing_garbage"})}
+\* --log-http mode of the proxy: the logging modifier sits between the round trip and the write to the client (in
+\* mode body it reads the reply body itself), and must not change any outcome
+LogModes == {"errors", "headers", "body"}
+BodyPhase(f) == f \in {"cut_body_cl", "cut_body_chunked", "rst_body", "bad_chunk_size", "bad_gzip", "trailing_garbage", "none"}
+Cases == {c \in [f : Faults, k : Kinds, log : LogModes] :
+            /\ Applies(c.f, c.k)
+            /\ ~(c.k = "CONNECTviaProxy" /\ c.f \in {"cut_head", "rst_head", "bad_status_line", "bad_field", "trailing_garbage"})
+            /\ (c.log # "errors" => BodyPhase(c.f) /\ c.k \in {"GET", "POST", "GETviaProxy", "MITMGET"})}
 
 VARIABLE dummy
 GInit == dummy \in Cases
 GNext == FALSE /\ UNCHANGED dummy
-Emit == PrintT(ToJson([f |-> dummy.f, k |-> dummy.k, out |-> Outcome(dummy.f, dummy.k)]))
+Emit == PrintT(ToJson([f |-> dummy.f, k |-> dummy.k, log |-> dummy.log, out |-> Outcome(dummy.f, dummy.k)]))
 ==============================================================================
